@@ -60,7 +60,7 @@ package leader
 //@ field kvElection.onPromote          guarded_by(mu)
 //@ field kvElection.onDemote           guarded_by(mu)
 //@ field kvElection.stopsWaiting       guarded_by(mu) counter
-//@ field kvElection.healthFailureCount owned_by(heartbeatLoop,handleHealthCheckFailure)
+//@ field kvElection.healthFailureCount owned_by(heartbeatLoop,handleHealthCheckFailure) props C12,C20
 //@ field kvElection.stopped            ghost sort Bool write_under(mu)
 //@ field kvElection.revSet             ghost sort Bool monotone    // becomeLeader has stored an own revision at least once
 
@@ -329,6 +329,18 @@ package leader
 //@ func (e *TokenValidationError) Unwrap()
 //@   tags C15
 //@   ensures C15.unwrap_returns_cause: result == e.Err
+//@ func (e *TimeoutError) Error()
+//@   tags C15
+//@   ensures C15.message_includes_cause: e.Err != nil ==> Includes(result, ErrMsg(e.Err))
+//@ func (e *TimeoutError) Unwrap()
+//@   tags C15
+//@   ensures C15.unwrap_returns_cause: result == e.Err
+//@ func (e *ValidationError) Error()
+//@   tags C15 C16
+//@   ensures C15.message_includes_cause: e.Err != nil ==> Includes(result, ErrMsg(e.Err))
+//@ func (e *ValidationError) Unwrap()
+//@   tags C15 C16
+//@   ensures C15.unwrap_returns_cause: result == e.Err
 
 //@ func IsPermanentError(err)
 //@   tags C15 C03
@@ -393,7 +405,8 @@ package leader
 //@   on ret CircuitBreaker.Call as r set lastNil = r.result == nil
 //@   on ret CircuitBreaker.Call set ncalls = ncalls + 1
 //@   on ret CircuitBreaker.Call set waitedSinceCall = false
-//@   on ret IsPermanentError as p set lastPerm = p.result
+//@   on ret fn as r set lastPerm = Permanent(r.result)
+//@   on ret CircuitBreaker.Call as r set lastPerm = Permanent(r.result)
 //@   on ret CalculateBackoff as c set lastBackoff = c.result
 //@   on call CalculateBackoff as c assert C17.backoff_uses_attempt: c.attempt == ncalls - 1 && c.cfg == cfg.BackoffConfig
 //@   on call time.After as a assert C17.waits_computed_backoff: a.d == lastBackoff
@@ -848,7 +861,7 @@ package leader
 //@   ghost pendingCancel Bool = false
 //@   on recv ctx.Done set pendingCancel = true
 //@   on call handleRunCancelled set pendingCancel = false
-//@   on return assert C03+C02.refreshes_end_only_with_the_term: !pendingCancel
+//@   on return assert C03+C02+C19.refreshes_end_only_with_the_term: !pendingCancel
 //@   on call handleRunCancelled as c assert C03.run_cancelled_names_this_run: c.ctx == ctx
 //@   on return assert C03.failure_is_classified: failed ==> classified
 
@@ -1004,6 +1017,11 @@ package leader
 //@   on call attemptAcquireWithRetry as c assert C06+C09.acquire_bound_to_election_ctx: c.ctx == ectx
 //@   ensures C06.vacancy_triggers_acquire: entry == nil || LenOf(EntryVal(entry)) == 0 ==> (ectx != nil ==> scalls(attemptAcquireWithRetry) == 1)
 //@   ensures C13.no_acquire_on_live_record: entry != nil && LenOf(EntryVal(entry)) != 0 ==> scalls(attemptAcquireWithRetry) == 0
+//@   ghost notedID Int = 0
+//@   ghost noted Bool = false
+//@   on store kvElection.leaderID as s set notedID = s.value
+//@   on store kvElection.leaderID set noted = true
+//@   ensures C18.follower_learns_the_owner_of_the_live_record: entry != nil && LenOf(EntryVal(entry)) != 0 && ParseOK(EntryVal(entry)) && !sawLeader ==> noted && notedID == IDOf(EntryVal(entry))
 //@   ghost knownLeader Int = 0
 //@   on load kvElection.leaderID as l set knownLeader = l.value
 //@   ensures C10.reevaluates_each_event: entry != nil && LenOf(EntryVal(entry)) != 0 && ParseOK(EntryVal(entry)) && !sawLeader && knownLeader == IDOf(EntryVal(entry)) && e.cfg.AllowPriorityTakeover && e.cfg.Priority > PrioOf(EntryVal(entry)) ==> scalls(attemptAcquire) == 1
